@@ -16,7 +16,7 @@ from .. import sched as S
 TAGS = ("a", "b", "c")
 
 
-def run_scripts(scripts):
+def run_scripts(scripts, ownloop=False):
     import Pyro5.api as P
     from Pyro5 import config, errors
     traces = []
@@ -45,6 +45,7 @@ def run_scripts(scripts):
                 return d
             daemons = {t: make(t) for t in TAGS}
             stop = [False]
+            own = None
             tr = {"steps": [], "seen": {t: {k: {"answered": "nobody", "validated": "nobody"} for k in ("first", "second")} for t in TAGS},
                   "hang": False, "expect_served": script["served"]}
             try:
@@ -61,6 +62,12 @@ def run_scripts(scripts):
                         tr["steps"].append(dict(st, out=out))
                     else:
                         runner = daemons[st["x"]]
+                        if ownloop:
+                            # the application's own event loop: it waits for whatever is ready among daemon.sockets and hands
+                            # that to daemon.events()
+                            own = memnet.ServerDriver(runner)
+                            tr["steps"].append(dict(st, out="ok"))
+                            continue
 
                         def body(runner=runner):
                             try:
@@ -90,6 +97,11 @@ def run_scripts(scripts):
             except S.Hang:
                 tr["hang"] = True
             stop[0] = True
+            if own is not None:
+                try:
+                    own.shutdown()
+                except Exception:
+                    pass
             try:
                 sc.sleep(2.5)          # the loop notices at its next poll
                 sc.quiesce()
@@ -120,18 +132,25 @@ def run(ctx):
     if len(scripts) < 30:
         raise util.MachineryError("script generation incomplete (%d)" % len(scripts))
     traces = run_scripts(scripts)
+    for tr in traces:
+        tr["loop"] = "requestLoop"
+    own_traces = run_scripts(scripts, ownloop=True)
+    for tr in own_traces:
+        tr["loop"] = "own"
+    traces += own_traces
+    scripts = scripts + scripts
     nested = 0
     for sc_, tr in zip(scripts, traces):
         n = sum(1 for s in sc_["steps"] if s["a"] == "combine")
         nested += n >= 2
-        ctx.count(json.dumps(sc_["steps"]) if n else None)
+        ctx.count(json.dumps([tr.get("loop"), sc_["steps"]]) if n else None)
     ctx.evaluations = len(traces)
     for i in (0, len(traces) // 2, len(traces) - 1):
         ctx.sample(traces[i])
     verdicts, _ = tlc.validate(ctx, "Trace_Combine", traces, cfg="Trace_Combine.cfg")
     for sc_, tr, v in zip(scripts, traces, verdicts):
         if v:
-            ctx.violation("%s [%s]" % (v, " ".join("%s(%s,%s)" % (s["a"], s["x"], s["y"]) if s["a"] == "combine" else "start(%s)" % s["x"] for s in sc_["steps"])), tr)
+            ctx.violation("%s [loop=%s %s]" % (v, tr.get("loop"), " ".join("%s(%s,%s)" % (s["a"], s["x"], s["y"]) if s["a"] == "combine" else "start(%s)" % s["x"] for s in sc_["steps"])), tr)
     if not ctx.violations and nested < 10:
         raise util.MachineryError("vacuity: only %d scripts with two combinations" % nested)
 
